@@ -189,6 +189,9 @@ func kForest(c J) interface{} {
 		st["regs"] = snapshot()
 		steps = append(steps, st)
 	}
+	if steps == nil {
+		steps = []interface{}{}
+	}
 	return J{"steps": steps}
 }
 
